@@ -845,8 +845,10 @@ var factWholeEntries = &fact{id: "whole-entries", what: "the list size is 28 plu
 		// (ListSize-28) % Size == 0
 		if remZero != nil {
 			// (the body may have been kept in a variable that a function literal captures and
-			// changes only later: resolveCellAt)
-			if rem, isB := ir.StripConv(remZero).(*ssa.BinOp); isB && rem.Op == token.REM && (isBody(rem.X) || isBody(resolveCellAt(ir.StripConv(rem.X)))) && isSize(rem.Y) {
+			// changes only later: resolveCellAt
+			// - only for a remainder taken in unsigned arithmetic: a signed body may be negative,
+			// and a negative multiple of the size also leaves no remainder)
+			if rem, isB := ir.StripConv(remZero).(*ssa.BinOp); isB && rem.Op == token.REM && (isBody(rem.X) || isUnsignedInt(rem.Type()) && isBody(resolveCellAt(ir.StripConv(rem.X)))) && isSize(rem.Y) {
 				return true
 			}
 		}
